@@ -140,7 +140,7 @@ func newEnv(kind string, blockwise bool, queue int, slowNotify ...bool) *env {
 		e.sent = func() []ref.Msg { ms, _ := ref.ParseTCPStream(sc.Written()); return ms }
 		if blockwise {
 			// two go-coap stream endpoints never announce block-wise to each other; a peer does
-			e.inject(ref.Msg{Code: 7<<5 | 1, Opts: []ref.Opt{{ID: 2, Val: ref.Uint(1152)}, {ID: 4, Val: nil}}})
+			sim.AnnounceBlockwise(sc, cc, ref.EncodeTCP(ref.Msg{Code: 7<<5 | 1, Opts: []ref.Opt{{ID: 2, Val: ref.Uint(1152)}, {ID: 4, Val: nil}}}))
 		}
 	}
 	return e
